@@ -86,7 +86,7 @@ func run(t *testing.T, tape *simrt.Tape) *hx.Outcome {
 	}
 	var layers []lay
 	for i := 0; i < nLayers; i++ {
-		spec := common.GenTar(d, tape.Seed+uint64(i)*104729, common.GenOpts{ChunkSize: cs, MaxEntries: 6})
+		spec := common.GenTar(d, tape.Seed+uint64(i)*104729, common.GenOpts{ChunkSize: cs, MaxEntries: 6, OddNames: d(3) == 0})
 		tb := spec.Bytes()
 		m, err := common.Model(tb)
 		if err != nil {
